@@ -1,0 +1,29 @@
+//go:build verif
+
+// Machine-checked contracts for package internal. Comments only; compiled only
+// with the "verif" build tag. See /verif/DESIGN.md.
+
+package internal
+
+// processInner renders one snapshot. Not yet under contract: assumed to write
+// only to out (and freshly allocated memory) and never to touch the input.
+//@ func processInner
+//@   option assumed
+//@   requires c != nil && len(c.Goroutines) >= 1 && out != nil
+//@   modifies ghost:wlen, ghost:wdata, ghost:werrs at out
+//@   ensures wlen(out) >= old(wlen(out)) && (forall k :: 0 <= k && k < old(wlen(out)) ==> wdata(out)[k] == old(wdata(out))[k])
+
+// process: the reader handed to the next ScanSnapshot call always continues
+// the original stream exactly where the previous call stopped; forwarded
+// bytes are original bytes in order; at end of input the remainder is flushed.
+// "orig" is the position of in's next byte in the stream of the reader that
+// process was given: orig = N(old(in)) - (N(in) - fetched(in)).
+//@ func process
+//@   requires in != nil && out != nil && 0 <= fetched(in) && fetched(in) <= N(in) && 0 <= wlen(out)
+//@   gvar flushed int = zero
+//@   gvar flushErr error = zero
+//@   update after-call Write#1: flushed := ret0; flushErr := ret1
+//@   assert after-call ScanSnapshot#1: [forwardedBytesAreOriginalBytesInOrder C02 C07 needs=streamResumesExactly+forwardedIsStreamPrefix+fetchedGrows] forall j :: pre(wlen(out)) <= j && j < wlen(out) ==> wdata(out)[j] == S(old(in), N(old(in)) - (N(in) - pre(fetched(in))) + (j - pre(wlen(out))))
+//@   at-return [remainderFlushedAtEndOfInput C02] result == nil && len(suffix) != 0 ==> flushed == len(suffix) && flushErr == nil
+//@   loop 0: invariant [streamResumesExactly C02 C07] in != nil && out == old(out) && 0 <= fetched(in) && fetched(in) <= N(in) && 0 <= wlen(out) && N(in) - fetched(in) <= N(old(in)) - old(fetched(old(in))) && (forall k :: 0 <= k && k < N(in) - fetched(in) ==> S(in, fetched(in) + k) == S(old(in), N(old(in)) - (N(in) - fetched(in)) + k))
+//@   loop 0: decreases N(in) - fetched(in)
